@@ -118,7 +118,23 @@ def prep_slices_contract():
 
 prep_slices_contract().result = _ps_result
 _ORDER = T.OneOf(0, 1, 3)
-_MTX = T.Arr(2, "real", shape=(4, 4))
+from pyvc.contract import TArr
+
+
+class TAffine(TArr):
+    """homogeneous 4x4 matrix (bottom row 0 0 0 1: `affine_row` of _prep_iterators; scipy rejects anything else); the
+    replay builds a rotation by a generic angle about a generic axis plus a sub-voxel offset"""
+
+    def __init__(self):
+        TArr.__init__(self, 2, "real", shape=(4, 4))
+
+    def src(self, name, model):
+        return ("np.block([[_Rotation.from_rotvec([0.3, -0.5, 0.2]).as_matrix(), np.array([[0.35], [-0.2], [0.6]])], "
+                "[np.zeros((1, 3)), np.ones((1, 1))]])")
+
+
+_MTX = TAffine()
+_AFFINE_ROW = "mtx[3, 0] == 0 and mtx[3, 1] == 0 and mtx[3, 2] == 0 and mtx[3, 3] == 1"
 
 
 def _native_sample_check(img, mtx, start, shape, order, result):
@@ -137,14 +153,56 @@ def _native_sample_check(img, mtx, start, shape, order, result):
     return ok
 
 
+_REPLAY_ONE = '''
+import numpy as np, re
+from scipy import ndimage as ndi
+from scipy.spatial.transform import Rotation
+from acryo.simulator import _simulate_one
+def geti(k, d):
+    try:
+        return int(str(model.get(k, d)))
+    except Exception:
+        return d
+order = int(re.search(r"order=(\\d)", OB).group(1)) if re.search(r"order=(\\d)", OB) else 1
+# the counter-model's geometry, with a template large enough for interpolation to have something to show
+box = tuple(max(geti("img_shape_%d" % a, 5), 5) for a in range(3))
+start = tuple(min(max(geti("start_%d" % a, -2), -box[a] + 1), 6) for a in range(3))
+stop = tuple(start[a] + box[a] for a in range(3))
+shape = tuple(max(geti("shape_%d" % a, 8), max(start[a], 0) + 3) for a in range(3))
+rng = np.random.default_rng(3)
+img = rng.random(box).astype(np.float32)
+mtx = np.eye(4); mtx[:3, :3] = Rotation.from_rotvec([0.2, -0.3, 0.1]).as_matrix(); mtx[:3, 3] = [0.4, 0.3, -0.2]
+sl, frag = _simulate_one(img, start, stop, mtx, shape, order)
+full = ndi.affine_transform(img, mtx, mode="constant", cval=0.0, order=order, prefilter=False)
+ok = True
+if frag is None:
+    ok = any(stop[a] <= 0 or start[a] >= shape[a] for a in range(3))
+else:
+    ok = all(sl[a].start == max(start[a], 0) and sl[a].stop == min(stop[a], shape[a]) for a in range(3)) \\
+        and frag.shape == tuple(sl[a].stop - sl[a].start for a in range(3))
+    worst = 0.0
+    if ok:
+        for idx in np.ndindex(*frag.shape):
+            o = tuple(sl[a].start + idx[a] - start[a] for a in range(3))
+            worst = max(worst, abs(float(frag[idx]) - float(full[o])))
+        ok = worst < 1e-4
+    print("template box", box, "fragment start", start, "volume", shape, "order", order, ": destination", sl,
+          "| largest |fragment[p - start] - transformed template at p - start| =", round(worst, 5))
+print("clause holds natively (the voxel pasted at p is the transformed template at p - start):", ok)
+print("CONFIRMED" if not ok else "NOT-CONFIRMED"); sys.exit(1 if not ok else 0)
+'''
+
+
 @contract("acryo.simulator:_simulate_one", props=["C14"])
 class simulate_one:
     """the fragment voxel placed at tomogram index p (inside the returned destination slices) is the transformed
     template at fragment index p - start, i.e. the template sampled at mtx (p - start); None iff no overlap."""
     params = dict(img=T.Arr(3, "real"), start=_I3, stop=_I3, mtx=_MTX, shape=_SHAPE, order=_ORDER)
-    requires = ["all(stop[a] - start[a] == img.shape[a] for a in range(3))"]
+    requires = ["all(stop[a] - start[a] == img.shape[a] for a in range(3))", _AFFINE_ROW]
     helpers = _H
+    imports = NATIVE_IMPORTS
     native_helpers = dict(_native_sample_check=_native_sample_check)
+    replay = staticmethod(lambda ob, meta, model: "OB = %r\n" % ob + _REPLAY_ONE)
     native_call = "_mod._simulate_one(**args)"
     native = {"none_iff_no_overlap": "iff(result[1] is None, any(stop[a] <= 0 or start[a] >= shape[a] for a in range(3)))",
               "fragment_shape": "True", "destination": "True",
@@ -160,3 +218,114 @@ class simulate_one:
                            "result[0][2].start + u2 - start[2]), order), "
                            "(0, result[1].shape[0]), (0, result[1].shape[1]), (0, result[1].shape[2]))",
     }
+
+
+# ---------------------------------------------------------------------------
+# task submission of the simulators: one paste task per molecule of every component (what is summed afterwards is the
+# list of task results; dask's compute and the accumulation loop are not under contract)
+from pyvc.contract import TSpec, make_obj
+from pyvc import symex as _X
+from contracts.C11_poses import M as _M
+
+
+class TSimulator(TSpec):
+    """TomogramSimulator with one component: N >= 1 molecules and a template image"""
+
+    def fresh(self, name, path):
+        import z3
+        interp = path.interp
+        cls = interp.resolve("acryo.simulator:TomogramSimulator")
+        comp_cls = interp.resolve("acryo.simulator:Component")
+        mol = TMolecules(min_n=1).fresh(name + "_mol", path)
+        img = T.Arr(3, "real").fresh(name + "_template", path)
+        comp = make_obj(interp, "acryo.simulator:Component", molecules=mol, image=img)
+        scale = V.Sym(z3.Real(name + "_scale"))
+        path.assume(scale > 0)
+        return _X.Obj(cls, {"_order": 1, "_scale": scale, "_corner_safe": False, "_components": {"a": comp}})
+
+    def src(self, name, model):
+        return "None"
+
+
+_SUBMITTED = [None]
+
+
+def _capture_tasks(interp, f, args, kwargs):
+    """stand-in for DaskTaskPool.compute while the submission is verified: remember the submitted tasks, return no
+    results (the accumulation loop then has nothing to do)"""
+    _SUBMITTED[0] = args[0].attrs["_tasks"]
+    return []
+
+
+def submitted():
+    return _SUBMITTED[0]
+
+
+def task_arg(k, j):
+    t = _SUBMITTED[0]
+    return t[k].args[j] if not hasattr(t, "fn") else t.fn(k).args[j]
+
+
+def n_submitted():
+    t = _SUBMITTED[0]
+    return len(t) if isinstance(t, list) else t.n
+
+
+_REPLAY_SIM = '''
+import numpy as np
+from acryo import TomogramSimulator, Molecules
+rng = np.random.default_rng(0)
+tmpl = rng.random((5, 5, 5)).astype(np.float32)
+ok = True
+for pos in ([[10, 10, 10]], [[10, 10, 10], [10, 20, 14], [12, 14, 22]]):
+    sim = TomogramSimulator(order=1, scale=1.0)
+    sim.add_molecules(Molecules(np.array(pos, float)), tmpl)
+    t3 = sim.simulate((24, 32, 32)); p2 = sim.simulate_2d((32, 32))
+    n = len(pos)
+    print(n, "molecule(s): total density 3-D", round(float(t3.sum()), 3), "| 2-D", round(float(p2.sum()), 3), "| expected", round(float(n * tmpl.sum()), 3))
+    ok = ok and np.allclose(t3.sum(axis=0), p2, atol=1e-3) and abs(float(t3.sum()) - n * float(tmpl.sum())) < 1e-2
+print("clause holds natively (every molecule is pasted; 2-D is the z-projection of 3-D):", ok)
+print("CONFIRMED" if not ok else "NOT-CONFIRMED"); sys.exit(1 if not ok else 0)
+'''
+
+_REPLAY_COLOR = '''
+import numpy as np
+from acryo import TomogramSimulator, Molecules
+rng = np.random.default_rng(0)
+tmpl = rng.random((5, 5, 5)).astype(np.float32)
+pos = np.array([[10, 8, 8], [10, 20, 8], [10, 8, 22]], float)
+cmapa = np.array([[1.0, 0, 0], [0, 1.0, 0], [0, 0, 1.0]])          # molecule i is painted in channel i only
+sim = TomogramSimulator(order=1, scale=1.0)
+sim.add_molecules(Molecules(pos), tmpl)
+out = sim.simulate((20, 30, 30), colormap=cmapa)
+ok = True
+for i, p in enumerate(pos.astype(int)):
+    box = out[:, p[0] - 3:p[0] + 4, p[1] - 3:p[1] + 4, p[2] - 3:p[2] + 4].sum(axis=(1, 2, 3))
+    print("molecule", i, "painted with", cmapa[i], ": channel sums around it", np.round(box, 2))
+    ok = ok and box[i] > 1.0 and all(abs(box[c]) < 1e-6 for c in range(3) if c != i)
+print("clause holds natively (every molecule pasted once, with its own colour):", ok)
+print("CONFIRMED" if not ok else "NOT-CONFIRMED"); sys.exit(1 if not ok else 0)
+'''
+
+_NCOMP = "self._components['a'].molecules._pos.shape[0]"
+for _meth, _params, _req, _extra in (
+        ("_simulate", dict(shape=_SHAPE), [], {}), ("simulate_2d", dict(shape=T.Tuple(T.Int(lo=1), T.Int(lo=1))), [], {}),
+        ("_simulate_with_color", dict(shape=_SHAPE, colormap=T.Arr(2, "real")),
+         ["colormap.shape[1] == 3", "colormap.shape[0] == " + _NCOMP],
+         {"colour_i_is_row_i_of_the_colormap":
+          "forall(lambda i: all(task_arg(i, 6)[c] == colormap[i, c] for c in range(3)), (0, %s))" % _NCOMP})):
+    @contract(f"acryo.simulator:TomogramSimulator.{_meth}", props=["C14"])
+    class submit_tasks:
+        """every molecule of the component gets exactly one paste task, in molecule order, with that molecule's own
+        inverse orientation in the affine matrix (none skipped, none duplicated)"""
+        params = dict(self=TSimulator(), **_params)
+        requires = _req
+        helpers = dict(submitted=submitted, task_arg=task_arg, n_submitted=n_submitted, M=_M)
+        replay = staticmethod(lambda ob, meta, model: _REPLAY_COLOR if "_simulate_with_color" in ob else _REPLAY_SIM)
+        setup = staticmethod(lambda interp: interp.call_hooks.__setitem__("acryo._dask:_DaskComputable.compute", _capture_tasks))
+        ensures = {
+            **_extra,
+            "one_task_per_molecule": "n_submitted() == self._components['a'].molecules._pos.shape[0]",
+            "task_i_is_molecule_i": "forall(lambda i: all(task_arg(i, 3)[a, b] == M(self._components['a'].molecules._rotator, i)[b][a] "
+                                    "for a in range(3) for b in range(3)), (0, self._components['a'].molecules._pos.shape[0]))",
+        }
